@@ -26,6 +26,23 @@ MODES = [("dyn", "probe/start"), ("static", "probe/start-static"), ("spie", "pro
          # dynamic PIE, tiny-std without the aux/vdso features: the other cfg variant of tiny_start::start::resolve
          ("dyn-noaux", "probe/start-noaux")]
 KEYS = [[], [65], [65, 66], [65, 66, 67], [65, 66, 67, 68], [66], [67]]
+# keys that no name can equal: containing '=' or an embedded NUL (only `var` can take the latter: a &UnixStr holds none)
+ODD_KEYS = [[65, 61], [61, 65], [61], [65, 0], [0], [65, 61, 120, 0, 66]]
+
+
+def name_or_all(e):
+    return e[:e.index(61)] if 61 in e else e
+
+
+def keys_for(env):
+    """the fixed keys plus keys made from the block itself: a whole entry "NAME=value"; an entry + NUL + the name of
+    the NEXT entry (the strings lie back to back in memory); a name + NUL"""
+    ks = KEYS + ODD_KEYS
+    for k, e in enumerate(env[:3]):
+        for cand in ([e] + ([e + [0] + name_or_all(env[k + 1])] if k + 1 < len(env) else []) + [name_or_all(e) + [0]]):
+            if cand not in ks and len(cand) < 500:
+                ks = ks + [cand]
+    return ks
 LAUNCH = os.path.join(core.VERIF, "tools", "bin", "launch")
 _LOCK = threading.Lock()
 BATCH = 1500
@@ -72,10 +89,12 @@ def model_check(chk, tier):
         info.append({"cfg": cfg, "states": res.distinct, "transitions": res.generated, "wall_s": round(res.wall, 1)})
     if tier != "quick":
         # anti-vacuity: the algorithm as found in the pinned tree must be rejected by the same invariants
-        res = core.run_tlc("Startup_MC.tla", "Startup_lookup2_pinned.cfg", workers=8, timeout=3000, xmx="6g")
-        info.append({"cfg": "Startup_lookup2_pinned.cfg", "expected_counterexample_found": "LookupCorrect" in res.invariant_violated})
-        if "LookupCorrect" not in res.invariant_violated:
-            raise core.ToolError("Startup_lookup2_pinned: the pinned algorithm was not rejected (vacuous invariant?)")
+        for cfg, inv in (("Startup_lookup2_pinned.cfg", {"LookupCorrect"}), ("Startup_lookup2_fixed1.cfg", {"LookupCorrect"}),
+                         ("Startup_lookup2_noterm.cfg", {"ReadsInBounds", "LookupCorrect"})):
+            res = core.run_tlc("Startup_MC.tla", cfg, workers=8, timeout=3000, xmx="6g")
+            info.append({"cfg": cfg, "expected_counterexample_found": bool(inv & set(res.invariant_violated)), "violated": res.invariant_violated})
+            if not inv & set(res.invariant_violated):
+                raise core.ToolError("%s: the defective algorithm variant was not rejected (vacuous invariant?)" % cfg)
     chk.extra["transcription_model_checked"] = info
     return leads
 
@@ -200,6 +219,14 @@ def stack_picture(r):
     return words, list(mem)
 
 
+def utf8(bs):
+    try:
+        bytes(bs).decode("utf-8")
+        return True
+    except UnicodeDecodeError:
+        return False
+
+
 def to_record(c, mode, build, r):
     """launcher result + probe output -> trace record for StartupJudge"""
     rec = {"mode": mode, "build": build, "argv": c["argv"], "env": c["env"],
@@ -239,7 +266,7 @@ def to_record(c, mode, build, r):
                 rec[w[1]] = [[int(w[2]), int(w[3])], [int(w[4]), int(w[5])], [int(w[6]), int(w[7])]]
             elif w[0] in ("var", "varu"):
                 if w[1] not in look:
-                    look[w[1]] = {"key": unhx(w[1]), "var": {"k": "skipped"}, "varu": {"k": "absent"}}
+                    look[w[1]] = {"key": unhx(w[1]), "var": {"k": "skipped"}, "varu": {"k": "skipped"}}
                     order.append(w[1])
                 look[w[1]][w[0]] = res_of(w[2:])
             elif w[0] == "done":
@@ -247,7 +274,10 @@ def to_record(c, mode, build, r):
     except (ValueError, IndexError):
         rec["status"] = "garbled" if rec["status"] == "exit0" else rec["status"]
     rec["look"] = [look[k] for k in order]
-    if rec["status"] == "exit0" and (not done or len(rec["look"]) != len(c["keys"])):
+    # a key that is neither UTF-8 (no var) nor NUL-free (no var_unix) cannot be passed to either function: the probe
+    # prints nothing for it
+    askable = [k for k in c["keys"] if 0 not in k or utf8(k)]
+    if rec["status"] == "exit0" and (not done or len(rec["look"]) != len(askable)):
         rec["status"] = "incomplete"
     return rec
 
@@ -403,7 +433,8 @@ def conformance(chk, pool, limit):
     core.tlc_must_pass(res, "StartupTrace")
     chk.add_tlc(res)
     conf, div = res.printed("CONF"), res.printed("DIV")
-    expect = sum(1 + len(r["look"]) + sum(1 for l in r["look"] if l["var"]["k"] != "skipped") for r in recs)
+    expect = sum(1 + sum(1 for l in r["look"] if l["varu"]["k"] != "skipped") + sum(1 for l in r["look"] if l["var"]["k"] != "skipped")
+                 for r in recs)
     if len(conf) + len(div) != expect:
         raise core.ToolError("StartupTrace decided %d + %d of %d walks" % (len(conf), len(div), expect))
     chk.extra["model_conformance"] = {"records": len(recs), "walks": expect, "conform": len(conf), "diverged": len(div),
@@ -464,7 +495,9 @@ def report(chk, rec, verdict, replay):
             for ki in verdict["keys"]:
                 l = rec["look"][ki - 1]
                 cls = look_class(rec["kenv"], l["key"], l["varu"])
-                if cls in ("wrong_value", "missing_expected?") and l["var"]["k"] != "skipped":
+                if 0 in l["key"] or 61 in l["key"]:
+                    cls = "key_with_nul_or_eq_answered"      # no name can equal such a key
+                elif cls in ("wrong_value", "missing_expected?", "skipped") and l["var"]["k"] != "skipped":
                     cls = look_class(rec["kenv"], l["key"], l["var"])   # var_unix looks right: describe var's answer
                 chk.violate({"clause": "lookup", "class": cls},
                             "[%s/%s] env=%s key=%s: var -> %s, var_unix -> %s" % (
@@ -1003,7 +1036,7 @@ def run(tier):
     use_ids = ids_usable(chk, bins[("dyn", "debug")])
     chk.extra["runs_under_other_ids"] = use_ids
     # every third run under other real ids than root's 0/0 (a uid/gid mix-up is invisible for 0/0)
-    cases = lead_cases + [{"argv": argvs[i % len(argvs)], "env": v["env"], "keys": KEYS,
+    cases = lead_cases + [{"argv": argvs[i % len(argvs)], "env": v["env"], "keys": keys_for(v["env"]),
                            "ids": (1000 + i % 7, 2000 + i % 5) if (i % 3 == 0 and use_ids) else None}
                           for i, v in enumerate(envs)]
     cases += [dict(c, ids=None) for c in extra_cases]
@@ -1069,6 +1102,12 @@ def run(tier):
     chk.exhaustive = not quick
     vd = {"%s/%s" % k: vdso_used(b) for k, b in sorted(bins.items()) if k[0] != "dyn-noaux"}
     chk.extra["vdso"] = vd
+    unused = sorted(k for k, v in vd.items() if v and not v["vdso_used"])
+    chk.extra["vdso_used"] = not unused and all(v is not None for v in vd.values())
+    if unused:
+        chk.extra["vdso_NOT_used_in"] = unused
+        core.log("NOTE (documented non-verdict): tiny-std's clock does NOT go through the vDSO in %s - every reading is a system call; "
+                 "the statement only constrains the vDSO clock 'when used'" % unused)
     def safe_audit(b):
         try:
             return reloc_audit(b)
